@@ -316,6 +316,11 @@ pub fn gen_c03(rng: &mut Rng, tier: Tier) -> C03Plan {
         }
         _ => gen_size(rng, class),
     };
+    let (w, h) = if cfg.is_sorenson() && rng.chance(1, 25) { gen_fixed_sorenson_size(rng, tier == Tier::Thorough) } else { (w, h) };
+    if w as u32 * h as u32 > 128 * 96 {
+        cfg.density = cfg.density.min(1);
+        cfg.mb_weights[0] += 12;
+    }
     let (fl, w, h) = flavour_for(rng, &cfg, w, h);
     let mut plan = C03Plan { note: String::new(), opts, pics: Vec::new(), steps: Vec::new() };
     let mut tr = rng.byte();
@@ -336,7 +341,8 @@ pub fn gen_c03(rng: &mut Rng, tier: Tier) -> C03Plan {
     };
     if !start_with_p {
         tr = tr.wrapping_add(1);
-        let i = gen_textured_intra(rng, &cfg, fl.clone(), w, h, tr);
+        let flq = requalify(rng, &fl, w, h);
+        let i = gen_textured_intra(rng, &cfg, flq, w, h, tr);
         let (pp, _) = PlanPic::from_spec(i, vec![], "textured intra picture");
         let (chunks, eintr) = delivery(rng, pp.bytes.len());
         let pi = push_pic(&mut plan, pp);
@@ -348,7 +354,8 @@ pub fn gen_c03(rng: &mut Rng, tier: Tier) -> C03Plan {
             0 => plan.steps.push(Step::Cleanup),
             1 | 2 => {
                 // a corrupted picture in between
-                let s = gen_picture(rng, &cfg, fl.clone(), PType::P, w, h, tr);
+                let flq = requalify(rng, &fl, w, h);
+                let s = gen_picture(rng, &cfg, flq, PType::P, w, h, tr);
                 let (b, m) = encode(&s);
                 let t = vec![Transit::draw(rng, b.len(), m.header_end)];
                 let (pp, _) = PlanPic::from_spec(s, t, "corrupted predicted picture");
@@ -356,14 +363,16 @@ pub fn gen_c03(rng: &mut Rng, tier: Tier) -> C03Plan {
                 plan.steps.push(Step::Rejected { pic: pi });
             }
             3 => {
-                let i = gen_textured_intra(rng, &cfg, fl.clone(), w, h, tr);
+                let flq = requalify(rng, &fl, w, h);
+        let i = gen_textured_intra(rng, &cfg, flq, w, h, tr);
                 let (pp, _) = PlanPic::from_spec(i, vec![], "textured intra picture");
                 let (chunks, eintr) = delivery(rng, pp.bytes.len());
                 let pi = push_pic(&mut plan, pp);
                 plan.steps.push(Step::Decode { pic: pi, cut: None, chunks, eintr });
             }
             k => {
-                let s = gen_picture(rng, &cfg, fl.clone(), PType::P, w, h, tr);
+                let flq = requalify(rng, &fl, w, h);
+                let s = gen_picture(rng, &cfg, flq, PType::P, w, h, tr);
                 let (pp, marks) = PlanPic::from_spec(s, vec![], "predicted picture");
                 let len = pp.bytes.len();
                 // truncation (eof_for_good) after any byte of the macroblock layer
